@@ -211,8 +211,16 @@ class Environment:
         # If event has an exception, run its callback before handle the
         # exception. In this way, the exception could be possibly be handled by
         # event's callback.
+        stop = None
         for callback in callbacks:
+            if callback == StopSimulation.callback:
+                # run(until=event) registered this when it was called; waiters
+                # that registered later must still be resumed, so stop last.
+                stop = callback
+                continue
             callback(event)
+        if stop is not None:
+            stop(event)
 
         if not event._ok and not hasattr(event, '_defused'):
             # The event has failed and has not been defused. Crash the
